@@ -131,7 +131,25 @@ def named_cost_plumbing(ctx, rule: str):
     ctx.floor(rule, 'function-map stores', n, 1)
 
 
+def cost_is_pure(ctx, rule: str):
+    """Evaluating the cost does not change it: no in-place tensor write on state owned by the
+    model is reachable from _get_single_cost (effect closure, property getters included) --
+    otherwise strength x cost grows from one regularizer call to the next."""
+    from ..effects import Effects
+    E = Effects(ctx.repo)
+    for wname in ('PIT', 'MPS', 'SuperNet'):
+        f = ctx.repo.cls(wname).methods['_get_single_cost']
+        hard = [e for e in E.closure(f) if e.kind == 'inplace' and
+                e.owners & {'self', 'g:self', 'unknown', 'global'}]
+        ctx.ob(rule, f'{wname}._get_single_cost leaves the model unchanged', not hard,
+               'no in-place tensor write on model-owned state' if not hard else
+               '; '.join(f'{e.detail[:70]} at {e.where()}' for e in hard[:2]) +
+               ': every evaluation of the cost modifies a tensor the next evaluation reads, so '
+               'the penalty is not strength x cost from the second call on', where(f))
+
+
 def run(ctx):
+    cost_is_pure(ctx, 'R19f')
     named_cost_plumbing(ctx, 'R19e')
     # premise: model.get_cost(name) is a function of the NAMED specification only (no value
     # memoised for one metric is returned for another) - the memo rule of C04/C05/C06
